@@ -22,10 +22,10 @@ def has_session(c):
     return len(c["replies"]) > 0 and len(c["replies"][0]) >= 24
 
 
-def mixed_cases(rnd, n_per_kind, kinds=range(1, 13), reply_mode="valid"):
+def mixed_cases(rnd, n_per_kind, kinds=range(1, 13), reply_mode="valid", accepted_args=False):
     cs = []
     for k in kinds:
-        for _ in range(n_per_kind): cs.append(world.rand_op_case(rnd, k, reply_mode))
+        for _ in range(n_per_kind): cs.append(world.rand_op_case(rnd, k, reply_mode, accepted_args))
     return cs
 
 
